@@ -553,6 +553,13 @@ impl StorageEngine {
             Some(stored_value) => {
                 match &mut stored_value.value {
                     Value::Stream(stream) => {
+                        // No ID greater than the maximal one exists: an automatic ID would
+                        // have to go backwards
+                        if stream.last_id() == StreamId::max() {
+                            return Err(FerrousError::Command(CommandError::Generic(
+                                "The stream has exhausted the last possible ID, unable to add more items".to_string()
+                            )));
+                        }
                         let id = stream.add_auto(fields);
                         shard_guard.mark_modified(&key);
                         id
